@@ -267,8 +267,8 @@ fn iri_stress_doc(t: &mut simcore::Tape, fl: Flavour) -> Vec<u8> {
                 // the namespace ends with '/' so that namespace + local name is a valid IRI too
                 let (sub, ns, obj) = (draw_iri(t), format!("{}/", draw_iri(t)), draw_iri(t));
                 s.push_str(&format!(
-                    "<rdf:Description rdf:about=\"{}\"><n:p xmlns:n=\"{}\" rdf:resource=\"{}\"/><n:q xmlns:n=\"{}\" rdf:datatype=\"{}\">v</n:q></rdf:Description>",
-                    xml_esc(&sub), xml_esc(&ns), xml_esc(&obj), xml_esc(&ns), xml_esc(&draw_iri(t))
+                    "<rdf:Description rdf:about=\"{}\"><n:p xmlns:n=\"{}\" rdf:resource=\"{}\"/><n:q xmlns:n=\"{}\" rdf:datatype=\"{}\">v</n:q><n:r xmlns:n=\"{}\" xml:lang=\"{}\">v</n:r></rdf:Description>",
+                    xml_esc(&sub), xml_esc(&ns), xml_esc(&obj), xml_esc(&ns), xml_esc(&draw_iri(t)), xml_esc(&ns), TAG_POOL[t.below(TAG_POOL.len())]
                 ));
             }
             s.push_str("</rdf:RDF>");
@@ -280,8 +280,8 @@ fn iri_stress_doc(t: &mut simcore::Tape, fl: Flavour) -> Vec<u8> {
                     s.push(',');
                 }
                 s.push_str(&format!(
-                    "{{\"@id\":\"{}\",\"{}\":[{{\"@id\":\"{}\"}},{{\"@value\":\"v\",\"@type\":\"{}\"}}]}}",
-                    draw_iri(t), draw_iri(t), draw_iri(t), draw_iri(t)
+                    "{{\"@id\":\"{}\",\"{}\":[{{\"@id\":\"{}\"}},{{\"@value\":\"v\",\"@type\":\"{}\"}},{{\"@value\":\"v\",\"@language\":\"{}\"}}]}}",
+                    draw_iri(t), draw_iri(t), draw_iri(t), draw_iri(t), TAG_POOL[t.below(TAG_POOL.len())]
                 ));
             }
             s.push(']');
@@ -290,19 +290,21 @@ fn iri_stress_doc(t: &mut simcore::Tape, fl: Flavour) -> Vec<u8> {
             for _ in 0..n {
                 s.push_str(&format!("<{}> <{}> <{}> <{}> .\n", draw_iri(t), draw_iri(t), draw_iri(t), draw_iri(t)));
                 s.push_str(&format!("<{}> <{}> \"v\"^^<{}> .\n", draw_iri(t), draw_iri(t), draw_iri(t)));
+                s.push_str(&format!("_:{} <{}> \"v\"@{} _:{} .\n", BNODE_POOL[t.below(BNODE_POOL.len())], draw_iri(t), TAG_POOL[t.below(TAG_POOL.len())], BNODE_POOL[t.below(BNODE_POOL.len())]));
             }
         }
         Flavour::Nt => {
             for _ in 0..n {
                 s.push_str(&format!("<{}> <{}> <{}> .\n", draw_iri(t), draw_iri(t), draw_iri(t)));
                 s.push_str(&format!("<{}> <{}> \"v\"^^<{}> .\n", draw_iri(t), draw_iri(t), draw_iri(t)));
+                s.push_str(&format!("_:{} <{}> \"v\"@{} .\n", BNODE_POOL[t.below(BNODE_POOL.len())], draw_iri(t), TAG_POOL[t.below(TAG_POOL.len())]));
             }
         }
         _ => {
             // the namespace ends with '/' so that p:x expands to a valid IRI too
             s.push_str(&format!("@prefix p: <{}/> .\n", draw_iri(t)));
             for _ in 0..n {
-                s.push_str(&format!("<{}> <{}> <{}> , \"v\"^^<{}> ; p: p:x .\n", draw_iri(t), draw_iri(t), draw_iri(t), draw_iri(t)));
+                s.push_str(&format!("<{}> <{}> <{}> , \"v\"^^<{}> ; p: p:x , \"v\"@{} , _:{} .\n", draw_iri(t), draw_iri(t), draw_iri(t), draw_iri(t), TAG_POOL[t.below(TAG_POOL.len())], BNODE_POOL[t.below(BNODE_POOL.len())]));
             }
             if fl != Flavour::Turtle {
                 s.push_str(&format!("GRAPH <{}> {{ <{}> <{}> <{}> }}\n", draw_iri(t), draw_iri(t), draw_iri(t), draw_iri(t)));
@@ -712,5 +714,105 @@ pub fn run_c08(ctx: &mut Ctx) -> Verdict {
         "{}",
         bad.join("\n")
     );
+    Ok(())
+}
+
+// ---------------------------------------------------------------------------------------------
+// the enumerable part of C08's quantifier: EVERY single-edit mutation of the corpus documents
+
+/// edits applied at one byte position: truncation, deletion, the 8 bit flips, insertion of
+/// each structural byte
+const EDITS_PER_POS: u64 = 1 + 1 + 8 + STRUCTURAL.len() as u64;
+
+fn enum_table() -> &'static Vec<(Flavour, usize, u64)> {
+    // (flavour, corpus document index, first case index of that document)
+    static TABLE: std::sync::OnceLock<Vec<(Flavour, usize, u64)>> = std::sync::OnceLock::new();
+    TABLE.get_or_init(|| {
+        let mut t = vec![];
+        let mut next = 0u64;
+        for fl in FLAVOURS {
+            for (i, d) in corpus_for(fl).iter().enumerate() {
+                t.push((fl, i, next));
+                next += (d.len() as u64 + 1) * EDITS_PER_POS;
+            }
+        }
+        t.push((Flavour::Nt, usize::MAX, next)); // sentinel: total
+        t
+    })
+}
+
+pub fn enum_count() -> u64 {
+    enum_table().last().map_or(0, |x| x.2)
+}
+
+pub fn run_enum(ctx: &mut Ctx, case: u64) -> Verdict {
+    let table = enum_table();
+    let k = table.partition_point(|e| e.2 <= case) - 1;
+    let (fl, di, first) = table[k];
+    let base = corpus_for(fl)[di].as_bytes();
+    let local = case - first;
+    let pos = (local / EDITS_PER_POS) as usize;
+    let edit = local % EDITS_PER_POS;
+    let mut doc = base.to_vec();
+    let what = match edit {
+        0 => {
+            doc.truncate(pos);
+            "truncate".to_string()
+        }
+        1 => {
+            if pos < doc.len() {
+                doc.remove(pos);
+            }
+            "delete".to_string()
+        }
+        2..=9 => {
+            if pos < doc.len() {
+                doc[pos] ^= 1 << (edit - 2);
+            }
+            format!("flip bit {}", edit - 2)
+        }
+        _ => {
+            let b = STRUCTURAL[(edit - 10) as usize];
+            doc.insert(pos.min(doc.len()), b);
+            format!("insert {:?}", b as char)
+        }
+    };
+    ctx.sig(fl.name());
+    ctx.ops += 4;
+    ctx.fault("enumerated_single_edit");
+    ctx.fault_in_op = true;
+    let changed = doc != base;
+    simcore::driver::set_panic_context(&format!(
+        "parser={} origin=corpus[{di}] {}",
+        fl.name(),
+        if changed { "doc=hostile" } else { "doc=valid" }
+    ));
+    ev!(ctx, "enumerated case {case}: {} corpus[{di}] {what} at {pos}", fl.name());
+    ctx.sample(|| format!("parser {} corpus document {di}: {what} at byte {pos}:\n{}", fl.name(), excerpt(&doc)));
+    let hs = 0;
+    for base_iri in [None, Some("http://example.org/base/doc")] {
+        if base_iri.is_some() && !matches!(fl, Flavour::Turtle | Flavour::Trig | Flavour::Gtrig | Flavour::Xml) {
+            continue;
+        }
+        let p0 = do_parse(fl, hs, base_iri, SimReader::perfect(doc.clone()));
+        if let Err(ParseFail::Sink(e)) = &p0.result {
+            return Err(Violation::new(
+                format!("infallible_sink_blamed/{}", fl.name()),
+                format!("parser reported a SinkError although the consumer cannot fail: {e}"),
+            ));
+        }
+        let bad = validate_items(fl, &p0.items);
+        if !bad.is_empty() {
+            return Err(Violation::new(
+                format!("invalid_term_yielded/{}", fl.name()),
+                format!(
+                    "{} [{}]\nstored bytes:\n{}",
+                    bad.join("\n"),
+                    if changed { "doc=hostile" } else { "doc=valid" },
+                    excerpt(&doc)
+                ),
+            ));
+        }
+    }
     Ok(())
 }
